@@ -211,9 +211,9 @@ Proof. vm_compute. split; [right; reflexivity|split; reflexivity]. Qed.
 (* C06_handshake_step_bounded ("processes each one in bounded time", handshake half): for every
    handshake step of the model, every state and EVERY script of replies and time-outs -- hostile,
    unfitting, erroneous, of any length -- the step ends after at most step_bound queries (5 for the
-   five-attempt steps, 3 for the tests, 3 x 7 patterns for the upstream autodetect, 12 for the
+   five-attempt steps incl. the login, 3 for the tests, 3 x 7 patterns for the upstream autodetect, 12 for the
    downstream autodetect, at most 27 for the query-type autodetect, 48 = 16 sizes x 3 attempts for the
-   fragment-size search), and it consumes the script from the front only: what is left is a suffix of
+   fragment-size search, 141 for the whole DNS-mode client_handshake), and it consumes the script from the front only: what is left is a suffix of
    what was there.  No reply sequence keeps a step going. *)
 Theorem C06_handshake_step_bounded :
   forall st s l,
@@ -248,7 +248,7 @@ Definition ex_short : list N :=
    192;12;0;10;0;1;0;0;0;0;0;2;66;65]%N.
 Example ex_handshake_inert :
   inertb (ID 0%N ex_stale) = true /\
-  (let s0 := hs_init 1000%N 10%N 10%Z 5%Z true in
+  (let s0 := hs_init 1000%N 10%N 10%Z 5%Z true 32%N [] in
    let r := run_step (SSwitchCodec 6%N) s0 [ID 0%N ex_stale; ID 2%N ex_short; IT] in
    (h_up (snd (fst r)) = 1%N) /\ (h_q (snd (fst r)) = 1%N) /\ (snd r = [IT]) /\
    (run_step (SSwitchCodec 6%N) s0 [ID 2%N ex_short; IT] = r)).
